@@ -244,7 +244,23 @@ func init() {
 		}
 		return out
 	}
+	replayers["C06nested"] = func(path, prop string, payload map[string]interface{}) int {
+		f, _ := c06Nested()
+		for _, x := range f {
+			fmt.Printf("VIOLATION property=C06 replay=%s\n  %s\n  %s\n", path, x.Signature, x.Detail)
+		}
+		if len(f) > 0 {
+			return 1
+		}
+		fmt.Println("no violation")
+		return 0
+	}
 	checks["C06"] = func(rc *runCtx) int {
+		extraFindings = func(cov map[string]interface{}) []Finding {
+			f, n := c06Nested()
+			cov["reentrant_callback_scripts_enumerated"] = n
+			return f
+		}
 		return runE1Check(rc, append(append([]string{}, e1Assumptions...), e2Assumptions...), nil)
 	}
 	wrap := func(p string, cacheGen func(int) []*CacheScen, classes int, fn bool) {
